@@ -188,7 +188,7 @@ Inv_C11 == Unexplained({"C11_unchanged", "C10_refuse"}) = {}
 Inv_C13 == Unexplained({"C13_wid"}) = {}
 Inv_C14 == Unexplained({"C14_startgate", "C14_siggate", "C14_events", "C14_killsent", "C14_own"}) = {}
 Inv_C15 == Unexplained({"C15_dir", "C15_views", "C15_addrm", "C15_reach"}) = {}
-Inv_C18 == Unexplained({"C18_confine", "C18_exact", "C18_killsig"}) = {}
+Inv_C18 == Unexplained({"C18_confine", "C18_exact", "C18_killsig", "C18_stopsig"}) = {}
 Inv_C19 == Unexplained({"C19_order", "C19_pace", "C19_auto"}) = {}
 \* C10 mutual exclusion, directly on the model: at most one exclusive operation frame is alive
 Inv_C10_mutex == Cardinality({ f \in FrameIds : s.fr[f].fn \in {"op", "manage_watchers"} /\ ~s.fr[f].done }) <= 1
